@@ -36,7 +36,7 @@ def gen_table(ctx, maxn, parts):
         out = os.path.join(d, f'walkgen_{maxn}_{k}.json')
         with open(cfg, 'w') as f:
             f.write(f'CONSTANTS\n  MaxN = {maxn}\n  Part = {k}\n  Parts = {parts}\n')
-        r = tlc.run_model('WalkGenCases', cfg, workers=1, env={'OUT_FILE': out}, heap='2g', timeout=1200)
+        r = tlc.run_model('WalkGenCases', cfg, workers=1, env={'OUT_FILE': out}, heap='1g', timeout=1200)
         if r['violated']:
             raise common.Machinery(f'WalkGenCases: {r["violated"]}')
         with open(out) as f:
